@@ -129,11 +129,14 @@ func handleConn(conn net.Conn, conf *Config, logFrameRate bool) error {
 	t0 := time.Now()
 	for {
 		frame := <-spentFrames
+		verifPoint("r.took")
 		_, err := io.ReadFull(reader, frame)
 		if err != nil {
+			verifPoint("r.eof")
 			close(writeFrames)
 			return err
 		}
+		verifPoint("r.filled")
 		totalFrames++
 
 		if logFrameRate {
@@ -152,6 +155,7 @@ func handleConn(conn net.Conn, conf *Config, logFrameRate bool) error {
 		}
 
 		writeFrames <- frame
+		verifPoint("r.sent")
 		chLen := len(writeFrames)
 		if chLen > 10 && totalFrames%60 == 0 {
 			log.Printf("warning: high write backlog (%d)", chLen)
@@ -177,12 +181,16 @@ func writer(inFrames <-chan []byte, conf *Config, h *headers.HeaderInfo, outFram
 		case frame, ok := <-inFrames:
 			if !ok {
 				builder.Close()
+				verifPoint("w.exit")
 				return
 			}
+			verifPoint("w.recv")
 			if err := writeFrame(builder, frame); err != nil {
 				panic(err)
 			}
+			verifPoint("w.wrote")
 			outFrames <- frame // Return the frame to be reused
+			verifPoint("w.returned")
 		}
 	}
 }
